@@ -58,4 +58,10 @@ CharVerdict(cs) ==
   ELSE IF \E i \in 1..Len(t.ts) : IsNameTok(t.ts[i]) /\ SubSeq(t.ts[i], Len(t.ts[i]), Len(t.ts[i])) \in {".", "-"}
        THEN [v |-> Verdict(t.ts), why |-> Why(t.ts)]
   ELSE [v |-> Verdict(t.ts), why |-> Why(t.ts)]
+\* leafref paths at character level: same tokeniser, but identifiers are ASCII only (RFC 6020 identifier)
+LeafrefCharVerdict(cs) ==
+  LET t == Tokenise(cs) IN
+  IF ~t.ok \/ t.ts = << >> THEN "reject"
+  ELSE IF \E i \in 1..Len(t.ts) : \E k \in 1..Len(t.ts[i]) : SubSeq(t.ts[i], k, k) = "~" THEN "reject"
+  ELSE LeafrefVerdict(t.ts)
 =============================================================================
